@@ -27,6 +27,8 @@ type Inc struct {
 	Flatten bool     `json:"flatten,omitempty"`
 	Aliases []string `json:"aliases,omitempty"`
 	Vars    []string `json:"vars,omitempty"` // "K=V"
+	// Optional marks the include optional; Target -1 is a file that does not exist
+	Optional bool `json:"optional,omitempty"`
 }
 
 // File is one Taskfile of a tree.
@@ -36,6 +38,8 @@ type File struct {
 	Includes []Inc  `json:"includes"`
 	Flat     bool   `json:"flat"` // tasks carry the file id in their name (the file is meant to be flattened)
 	RootV    bool   `json:"root_v"`
+	Version  string `json:"version,omitempty"` // "" = '3', "none" = no version line
+	Dotenv   bool   `json:"dotenv,omitempty"`  // root of the dotenv shape
 	Text     string `json:"text"`
 }
 
@@ -47,15 +51,18 @@ type Level struct {
 
 // Tree is one generated project.
 type Tree struct {
-	Index  int      `json:"index"`
-	Shape  string   `json:"shape"`
-	Dir    string   `json:"dir"` // absolute, set by the driver
-	Files  []File   `json:"files"`
-	Calls  []string `json:"calls"`  // names resolved and compiled in addition to the task table
-	Dry    []string `json:"dry"`    // calls of the dry run
-	Levels []Level  `json:"levels"` // files with >= 2 include entries
-	Clash  bool     `json:"clash"`  // >= 1 level with >= 2 includes
-	Hash   string   `json:"hash"`
+	Index  int               `json:"index"`
+	Shape  string            `json:"shape"`
+	Dir    string            `json:"dir"` // absolute, set by the driver
+	Files  []File            `json:"files"`
+	Calls  []string          `json:"calls"`           // names resolved and compiled in addition to the task table
+	Dry    []string          `json:"dry"`             // calls of the dry run
+	Exec   []string          `json:"exec"`            // calls that are really executed (their commands only print)
+	Extra  map[string]string `json:"extra,omitempty"` // further files of the project (dotenv files)
+	Fault  string            `json:"fault,omitempty"` // fault-bearing trees: the kind of fault in the common file
+	Levels []Level           `json:"levels"`          // files with >= 2 include entries
+	Clash  bool              `json:"clash"`           // >= 1 level with >= 2 includes
+	Hash   string            `json:"hash"`
 }
 
 // Shapes in generation order; the first len(shapes) trees of a run are one of
@@ -93,6 +100,10 @@ func (g *tgen) addFile(flat bool) int {
 // link adds an include entry parent -> target.
 func (g *tgen) link(parent, target int, flatten bool) {
 	inc := Inc{NS: g.ns(), Target: target, Flatten: flatten}
+	if target < 0 {
+		g.t.Files[parent].Includes = append(g.t.Files[parent].Includes, inc)
+		return
+	}
 	if flatten || g.r.Intn(2) == 0 {
 		inc.Mapping = true
 		if g.r.Intn(2) == 0 {
@@ -126,11 +137,23 @@ func (g *tgen) render() {
 	for i := range t.Files {
 		f := &t.Files[i]
 		var b strings.Builder
-		b.WriteString("version: '3'\n")
+		switch f.Version {
+		case "":
+			b.WriteString("version: '3'\n")
+		case "none":
+		default:
+			fmt.Fprintf(&b, "version: '%s'\n", f.Version)
+		}
+		if f.Dotenv {
+			b.WriteString("dotenv: ['.env', 'second.env']\n")
+		}
 		if len(f.Includes) > 0 {
 			b.WriteString("includes:\n")
 			for _, inc := range f.Includes {
-				tp := relPath(f.Path, t.Files[inc.Target].Path)
+				tp := "./missing_" + inc.NS + ".yml"
+				if inc.Target >= 0 {
+					tp = relPath(f.Path, t.Files[inc.Target].Path)
+				}
 				if !inc.Mapping {
 					fmt.Fprintf(&b, "  %s: %s\n", inc.NS, tp)
 					continue
@@ -141,6 +164,9 @@ func (g *tgen) render() {
 				}
 				if inc.Flatten {
 					b.WriteString("    flatten: true\n")
+				}
+				if inc.Optional {
+					b.WriteString("    optional: true\n")
 				}
 				if len(inc.Aliases) > 0 {
 					fmt.Fprintf(&b, "    aliases: [%s]\n", strings.Join(inc.Aliases, ", "))
@@ -161,8 +187,14 @@ func (g *tgen) render() {
 		}
 		if i == 0 {
 			b.WriteString("vars:\n  R: root\n")
+			if f.Dotenv {
+				b.WriteString("  G: \"g-{{.R}}\"\n")
+			}
 			if f.RootV {
 				b.WriteString("  V: v-from-root\n")
+			}
+			if f.Dotenv {
+				b.WriteString("env:\n  E0: \"e0-{{.G}}\"\n")
 			}
 			b.WriteString("tasks:\n")
 			b.WriteString("  default:\n    vars: {L: \"{{.V}}-l\"}\n    cmds:\n      - echo f0 default V={{.V}} L={{.L}} P={{.P}} M={{.M}} E=$E\n")
@@ -171,6 +203,11 @@ func (g *tgen) render() {
 				fmt.Fprintf(&b, "      - task: %q\n", c)
 			}
 			b.WriteString("  \"*:build-zz\":\n    cmds:\n      - echo f0 root-wildcard MATCH={{.MATCH}} V={{.V}}\n")
+			if f.Dotenv {
+				// values of the dotenv files refer to each other and to global vars; the commands only print
+				b.WriteString("  envshow:\n    cmds:\n      - printf '%s\\n' \"A=$A B=$B C=$C D=$D K=$K G2=$G2 E0=$E0\"\n")
+				b.WriteString("  envshow2:\n    dotenv: ['task.env']\n    env: {T: \"t-{{.A}}-{{.X}}\"}\n    cmds:\n      - printf '%s\\n' \"A=$A B=$B X=$X Y=$Y Z=$Z T=$T\"\n")
+			}
 		} else {
 			fmt.Fprintf(&b, "vars:\n  V: v-from-%s\n", id)
 			if i%2 == 1 {
@@ -211,6 +248,9 @@ func (g *tgen) names(i int, depth int) []string {
 		return out
 	}
 	for _, inc := range f.Includes {
+		if inc.Target < 0 {
+			continue
+		}
 		for _, n := range g.names(inc.Target, depth+1) {
 			if inc.Flatten {
 				out = append(out, n)
@@ -229,16 +269,80 @@ func (g *tgen) names(i int, depth int) []string {
 }
 
 // GenTree builds tree number idx of the run.
-func GenTree(r *rand.Rand, idx int) *Tree {
-	shape := shapes[idx%len(shapes)]
-	if idx >= 2*len(shapes) {
-		shape = shapes[r.Intn(len(shapes))]
+// FaultKinds are the ways the common file of a fault diamond is broken.
+var FaultKinds = []string{"missing", "version", "no-version", "cycle", "flatten-conflict"}
+
+// plan is the sequence of shapes of a run: three rounds of the seven clash
+// shapes, two dotenv trees, one fault diamond per fault kind and two more with
+// a missing required include. Longer runs repeat it.
+var plan = func() []string {
+	var p []string
+	for i := 0; i < 3; i++ {
+		p = append(p, shapes...)
 	}
+	p = append(p, "dotenv", "dotenv")
+	for _, k := range FaultKinds {
+		p = append(p, "fault-diamond-"+k)
+	}
+	p = append(p, "fault-diamond-missing", "fault-diamond-missing")
+	return p
+}()
+
+// PlanLen is the number of trees of one round of the plan.
+func PlanLen() int { return len(plan) }
+
+func GenTree(r *rand.Rand, idx int) *Tree {
+	shape := plan[idx%len(plan)]
 	t := &Tree{Index: idx, Shape: shape}
+	if strings.HasPrefix(shape, "fault-diamond-") {
+		t.Fault = strings.TrimPrefix(shape, "fault-diamond-")
+		t.Shape = "fault-diamond"
+	}
 	g := &tgen{r: r, t: t}
 	root := g.addFile(false)
 	t.Files[root].RootV = r.Intn(3) == 0
-	switch shape {
+	switch t.Shape {
+	case "dotenv":
+		t.Files[root].Dotenv = true
+		g.link(root, g.addFile(false), false)
+		t.Extra = map[string]string{
+			".env":       "A=base\nB={{.A}}-b\nC={{.B}}-c\nG2={{.G}}-from-dotenv\n",
+			"second.env": "A=second\nD={{.C}}-d\nK={{.D}}-k\n",
+			"task.env":   "X=x\nY={{.X}}-y\nZ={{.Y}}-z-{{.R}}\nA=task-a\n",
+		}
+		t.Exec = []string{"envshow", "envshow2"}
+	case "fault-diamond":
+		// root -> b, c; b -> d optionally, c -> d normally; d is broken
+		b, c, d := g.addFile(false), g.addFile(false), g.addFile(false)
+		if r.Intn(2) == 0 {
+			g.link(root, b, false)
+			g.link(root, c, false)
+		} else {
+			g.link(root, c, false)
+			g.link(root, b, false)
+		}
+		g.link(b, d, false)
+		bi := &t.Files[b].Includes[len(t.Files[b].Includes)-1]
+		bi.Mapping, bi.Optional = true, true
+		g.link(c, d, false)
+		switch t.Fault {
+		case "missing":
+			g.link(d, -1, false)
+		case "version":
+			e := g.addFile(false)
+			t.Files[e].Version = []string{"3.5.0", "2"}[r.Intn(2)]
+			g.link(d, e, false)
+		case "no-version":
+			e := g.addFile(false)
+			t.Files[e].Version = "none"
+			g.link(d, e, false)
+		case "cycle":
+			g.link(d, c, false)
+		case "flatten-conflict":
+			// a file with d's task names, flattened into d
+			e := g.addFile(false)
+			g.link(d, e, true)
+		}
 	case "siblings":
 		k := 2 + r.Intn(3)
 		for j := 0; j < k; j++ {
@@ -346,6 +450,14 @@ func GenTree(r *rand.Rand, idx int) *Tree {
 	for _, f := range t.Files {
 		hs = append(hs, f.Path, f.Text)
 	}
+	var extra []string
+	for k := range t.Extra {
+		extra = append(extra, k)
+	}
+	sort.Strings(extra)
+	for _, k := range extra {
+		hs = append(hs, k, t.Extra[k])
+	}
 	t.Hash = hashOf(hs...)
 	return t
 }
@@ -355,7 +467,7 @@ func (g *tgen) reaches(from, to int) bool {
 		return true
 	}
 	for _, inc := range g.t.Files[from].Includes {
-		if g.reaches(inc.Target, to) {
+		if inc.Target >= 0 && g.reaches(inc.Target, to) {
 			return true
 		}
 	}
